@@ -442,6 +442,7 @@ def shards(tier):
     for x in (None, 1, 2, 3):
         for y in (None, 0, 1, 2):
             out.append(dict(part="battery", x=x, y=y))
+    out += [dict(part="reuse", first=f) for f in ("e0", "e1", "e2", "upd")]
     out += [dict(part="direct"), dict(part="connections", root=[0, 0]),
             dict(part="connections", root=[4, 0]),
             dict(part="connections", root=[1, 5]),
@@ -713,6 +714,92 @@ def part_direct(params, tier, acc):
     acc.sample(dict(part="direct"))
 
 
+def part_reuse(params, tier, acc):
+    """Long-lived context objects entered again and again under different
+    enclosing contexts: every sequence of <=5 operations over {enter c1,
+    enter c2, enter c3, leave, update} on one controller; after every
+    operation the arguments in force are those of a stack of dicts, and a
+    read goes where they say."""
+    frames = [dict(x=1, y=2), dict(app_id=30, p=3), dict(x=3)]
+    ops = ["e0", "e1", "e2", "leave", "upd"]
+    first = params["first"]
+    for n in range(1, 6):
+        for rest in itertools.product(ops, repeat=n - 1):
+            seq = (first,) + rest
+            # leaves only when something is open
+            depth = 0
+            ok = True
+            for o in seq:
+                if o == "leave":
+                    if depth == 0:
+                        ok = False
+                        break
+                    depth -= 1
+                elif o != "upd":
+                    depth += 1
+            if not ok:
+                continue
+            acc.evaluations += 1
+            acc.nontrivial += 1
+            acc.transitions += 1
+            with Twin() as tw:
+                mc = tw.A
+                objs = [mc(**f) for f in frames]
+                dicts = [dict(f) for f in frames]
+                base = {"app_id": 66}
+                stack = []          # indices into objs, -1 = base
+                opened = []
+                bad = None
+                for step, o in enumerate(seq):
+                    if o == "leave":
+                        opened.pop().__exit__(None, None, None)
+                        stack.pop()
+                    elif o == "upd":
+                        mc.update_current_context(y=4)
+                        (dicts[stack[-1]] if stack else base)["y"] = 4
+                    else:
+                        i = int(o[1])
+                        objs[i].__enter__()
+                        opened.append(objs[i])
+                        stack.append(i)
+                    want = dict(base)
+                    for i in stack:
+                        want.update(dicts[i])
+                    got = mc.get_context_arguments()
+                    if got != want:
+                        bad = ("after %r the context arguments are %r, the "
+                               "stack of context objects gives %r"
+                               % (seq[:step + 1], got, want))
+                        break
+                if not bad and "x" in want and "y" in want:
+                    n0 = len(tw.sims["A"].cmds)
+                    tgt = (want["x"], want["y"])
+                    try:
+                        mc.read(0x60000000, 4)
+                        r = tw.sims["A"].cmds[n0:]
+                        if tgt in tw.sims["A"].chips and (
+                                not r or r[-1]["raw_chip"] != tgt or
+                                r[-1]["cpu"] != want.get("p", 0)):
+                            bad = ("after %r a read went to %r, the context "
+                                   "says chip %r core %r"
+                                   % (seq, [(c["raw_chip"], c["cpu"])
+                                            for c in r], tgt,
+                                      want.get("p", 0)))
+                    except Exception as e:
+                        if tgt in tw.sims["A"].chips:
+                            bad = "read raised %s: %s" % (type(e).__name__, e)
+                while opened:
+                    try:
+                        opened.pop().__exit__(None, None, None)
+                    except Exception:
+                        pass
+                if bad:
+                    acc.violation(dict(kind="reused_context_objects"),
+                                  dict(part="reuse", first=first,
+                                       seq=list(seq)), bad, size=len(seq))
+    acc.sample(dict(part="reuse", first=first, ops=ops))
+
+
 def part_connections(params, tier, acc):
     """Connection of the board that holds the target (SpiNN-5 tiling)."""
     from checks.c19 import tile
@@ -897,6 +984,8 @@ def replay(case, acc):
                               size=case.get("size", [12, 12])), "quick", acc)
     elif case.get("part") == "bmp":
         part_bmp({}, "quick", acc)
+    elif case.get("part") == "reuse":
+        part_reuse(dict(first=case["first"]), "quick", acc)
     else:
         methods = wrapped_methods(MachineController)
         table = method_table()
